@@ -10,7 +10,6 @@ from concurrent.futures import ThreadPoolExecutor
 from .. import tlc
 from ..core import use_repo
 from ..sim import internal_signals
-from ..pipeline import validate_group
 
 ENGINE = "ss_ltssm"
 SPEC_DIR = "ss_ltssm"
@@ -53,7 +52,6 @@ OUT_FIELDS = [("lr", "link_ready"), ("eu0", "entering_u0"), ("txi", "tx_electric
               ("rhot", "request_hot_reset"), ("rnscr", "request_no_scrambling"), ("scr", "enable_scrambling"),
               ("pidle", "perform_idle_handshake"), ("loopb", "act_as_loopback"), ("inv", "invert_rx_polarity")]
 STROBES = ["pd", "npd", "lfps", "ts1", "its1", "ts2", "burst", "idle", "hot", "loop", "nscr", "rec"]
-LEVELS = ["phy", "dscr", "sent"]
 NO_INPUT = dict({k: False for k, _ in IN_FIELDS}, phy=True, sent=0)
 
 # Edges of the reference FSM graph (must equal FsmEdges of MCLtssm.tla: cross-checked through NEdges and EdgeLegal).
@@ -102,12 +100,6 @@ def phase(o):
 
 
 PHASE_TIMEOUT = {"TS1": T12, "TS2": T12, "QUIET": T12, "IDLE": T2, "LFPS": T360}
-
-
-def full_input(i, base=None):
-    r = dict(base if base is not None else NO_INPUT)
-    r.update(i)
-    return r
 
 
 def quieten(i):
@@ -577,7 +569,7 @@ def classify(trace, matched, status, meta):
     if status == "reset_link_ready":
         j = k - 2 if k >= 2 and trace[k - 2]["i"]["rst"] else None      # the cycle before link_ready was seen
     else:
-        for x in range(min(k, len(trace)) - 1, -1, -1):                 # the last reset before the failure
+        for x in range(min(k - 1, len(trace)) - 1, -1, -1):             # the last reset before the failing cycle
             if trace[x]["i"]["rst"]:
                 j = x
                 break
